@@ -10,6 +10,7 @@ import subprocess
 
 HERE = os.path.dirname(os.path.dirname(os.path.abspath(__file__)))
 SPEC = os.path.join(HERE, "models", "BaneProtocol.tla")
+SPEC_COUNTER = os.path.join(HERE, "models", "BaneCounter.tla")
 
 
 def tla_seq(items):
@@ -27,21 +28,83 @@ def write_instance(d, S, C, prog, faults, abort):
                 "INVARIANTS TypeOK NoBrokenWithoutFault FaultIsReported\n" % (S, C, abort if isinstance(abort, str) else ("abort" if abort else "none")))
 
 
-def _tlc(d, extra, timeout=3600):
+def compress_program(prog):
+    """merge every run of work steps; returns (compressed program, map pc (1-based, incl. PL+1) -> compressed location)"""
+    comp, cmap = [], {}
+    for i, op in enumerate(prog):
+        if op == "work" and comp and comp[-1] == "work":
+            cmap[i + 1] = len(comp)
+            continue
+        comp.append(op)
+        cmap[i + 1] = len(comp)
+    cmap[len(prog) + 1] = len(comp) + 1
+    return comp, cmap
+
+
+def write_counter_instance(d, S, prog, faultpcs, failaction):
+    """instance of the counter abstraction (C = S, programs over work/wait only)"""
+    assert all(op in ("work", "wait") for op in prog)
+    comp, _ = compress_program(prog)
+    os.makedirs(d, exist_ok=True)
+    shutil.copy(SPEC_COUNTER, os.path.join(d, "BaneCounter.tla"))
+    with open(os.path.join(d, "MC.tla"), "w") as f:
+        f.write("---- MODULE MC ----\nEXTENDS BaneCounter\nProgConst == %s\nProgCConst == %s\nFaultPcsConst == {%s}\n====\n" % (
+            tla_seq(prog), tla_seq(comp), ", ".join(str(int(p)) for p in faultpcs)))
+    with open(os.path.join(d, "MC.cfg"), "w") as f:
+        f.write("SPECIFICATION Spec\nCONSTANTS\n S = %d\n Prog <- ProgConst\n ProgC <- ProgCConst\n FaultPcs <- FaultPcsConst\n FailAction = \"%s\"\n"
+                "INVARIANTS TypeOK NoBrokenWithoutFault FaultIsReported\n" % (S, failaction))
+
+
+def project_to_counter(state, tracked, prog):
+    """forget stripe identities of a BaneProtocol state (dict) except for the tracked stripe (1-based); the counted
+    stripes' program counters are mapped to the compressed program"""
+    comp, cmap = compress_program(prog)
+    S = len(state["st"])
+    z = lambda: [0] * (len(comp) + 1)
+    at, bw, be = z(), z(), z()
+    q = ab = done = failed = 0
+    for s in range(1, S + 1):
+        if s == tracked:
+            continue
+        st, pc = state["st"][s - 1], state["pc"][s - 1]
+        if st == "queued":
+            q += 1
+        elif st == "run":
+            at[cmap[pc] - 1] += 1
+        elif st == "bwait":
+            bw[cmap[pc] - 1] += 1
+        elif st == "benter":
+            be[cmap[pc] - 1] += 1
+        elif st == "aborting":
+            ab += 1
+        elif st == "done":
+            done += 1
+        elif st == "failed":
+            failed += 1
+    return (q, tuple(at), tuple(bw), tuple(be), ab, done, failed, state["st"][tracked - 1], state["pc"][tracked - 1],
+            state["bstate"], state["bcount"], state["parent"], state["FaultPc"])
+
+
+def counter_key(state):
+    return (state["q"], tuple(state["at"]), tuple(state["bw"]), tuple(state["be"]), state["ab"], state["done"], state["failed"],
+            state["tst"], state["tpc"], state["bstate"], state["bcount"], state["parent"], state["FaultPc"])
+
+
+def _tlc(d, extra, timeout=3600, workers=1):
     meta = os.path.join(d, "meta")
     shutil.rmtree(meta, ignore_errors=True)
-    cmd = ["tlc", "-workers", "1", "-noGenerateSpecTE", "-metadir", meta] + extra + ["MC.tla"]
+    cmd = ["tlc", "-workers", str(workers), "-noGenerateSpecTE", "-metadir", meta] + extra + ["MC.tla"]
     r = subprocess.run(cmd, cwd=d, capture_output=True, text=True, timeout=timeout)
     shutil.rmtree(meta, ignore_errors=True)
     return r.stdout + r.stderr
 
 
-def verdict(d):
+def verdict(d, workers=1):
     """model check with deadlock detection; returns dict(error, states, distinct, trace)"""
     tr = os.path.join(d, "trace.json")
     if os.path.exists(tr):
         os.remove(tr)
-    out = _tlc(d, ["-dumpTrace", "json", "trace.json"])
+    out = _tlc(d, ["-dumpTrace", "json", "trace.json"], workers=workers)
     res = dict(error=None, states=0, distinct=0, trace=None, raw=out[-2000:])
     m = re.search(r"(\d+) states generated, (\d+) distinct states found", out)
     if m:
